@@ -163,7 +163,10 @@ Section Leaf.
   Lemma draw_name_hit c cs rest :
     draw_name (c :: Z.of_nat (length cs) :: cs ++ rest) = (c :: cs, rest).
   Proof.
-    unfold draw_name. cbv zeta. rewrite !next_cons. cbn [fst snd]. rewrite !next_cons. cbn [fst snd]. rewrite Nat2Z.id.
+    unfold draw_name. cbv zeta. rewrite !next_cons. cbn [fst snd]. rewrite !next_cons. cbn [fst snd].
+    replace (Z.min (Z.of_nat (length cs)) (zlen (cs ++ rest))) with (Z.of_nat (length cs))
+      by (unfold zlen; rewrite app_length; lia).
+    rewrite Nat2Z.id.
     now rewrite firstn_exact, skipn_exact.
   Qed.
 
